@@ -43,6 +43,7 @@ VERIF_MSG = (
     "recommendation not met",
     "constructed value may fail to meet its declared type invariant",
     "possible truncation",
+    "unable to prove",
 )
 
 
